@@ -215,7 +215,7 @@ class Check:
             en = {"TRACE_FILE": path}
             if env:
                 en.update(env)
-            jobs.append(dict(module=module, cfg=cfg or module + ".cfg", env=en, workers=1, timeout=timeout))
+            jobs.append(dict(module=module, cfg=cfg or module + ".cfg", env=en, workers=1, timeout=timeout, java_opts=("-Xmx3g",)))
         self.checker_cmds.append("TRACE_FILE=<chunk.ndjson> tlc -workers 1 -config %s %s   (x%d chunks)" % (cfg or module + ".cfg", module, len(jobs)))
         rejects = []
         results = tlc.run_many_safe(jobs, parallel=NCPU)
